@@ -131,13 +131,12 @@ let rec flt_print res (pit : BigZ.t option) (c : Model.sqlcond) : string =
       (sqlq ("[{" ^ String.concat "," (List.map (fun (k, v) -> jsons k ^ ":" ^ v) kvs) ^ "}]"))
   | Model.CBalSub (asset, o, v) ->
     let asset_c = match asset with Some a -> Printf.sprintf " AND (asset = %s)" (sqlq (sc a)) | None -> "" in
-    (match pit with
-     | None ->
-       Printf.sprintf "SELECT balance %s '%s' FROM (SELECT input - output as balance FROM \"_default\".accounts_volumes WHERE (accounts_address = dataset.address)%s) balance"
-         (cmp_s o) (zstr v) asset_c
-     | Some t ->
-       Printf.sprintf "SELECT balance %s '%s' FROM (SELECT DISTINCT ON (asset) first_value((post_commit_effective_volumes).inputs - (post_commit_effective_volumes).outputs) over (partition by (accounts_address, asset) order by effective_date desc, seq desc) as balance FROM \"_default\".moves WHERE (accounts_address = dataset.address) AND (effective_date <= '%s')%s) balance"
-         (cmp_s o) (zstr v) (rfc3339 t) asset_c)
+    let sub = (match pit with
+      | None -> Printf.sprintf "SELECT input - output as balance FROM \"_default\".accounts_volumes WHERE (accounts_address = dataset.address)%s" asset_c
+      | Some t -> Printf.sprintf "SELECT DISTINCT ON (asset) first_value((post_commit_effective_volumes).inputs - (post_commit_effective_volumes).outputs) over (partition by (accounts_address, asset) order by effective_date desc, seq desc) as balance FROM \"_default\".moves WHERE (accounts_address = dataset.address) AND (effective_date <= '%s')%s" (rfc3339 t) asset_c) in
+    (match asset with
+     | Some _ -> Printf.sprintf "SELECT balance %s '%s' FROM (%s) balance" (cmp_s o) (zstr v) sub
+     | None -> Printf.sprintf "exists (SELECT 1 FROM (%s) balance WHERE (balance %s '%s'))" sub (cmp_s o) (zstr v))
   | Model.CAnd (true, l) -> "(" ^ String.concat ") and (" (List.map p l) ^ ")"
   | Model.CAnd (false, l) -> String.concat " and " (List.map p l)
   | Model.COr (true, l) -> "(" ^ String.concat ") or (" (List.map p l) ^ ")"
